@@ -243,6 +243,72 @@ def install(E):
     return dict(store=st, import_contract=c_imp)
 
 
+def add_cli_target(E, spec, pid, st):
+    """`nauyaca tofu import` (nauyaca.__main__:tofu_import, real body): the command changes the store only through
+    TOFUDatabase.import_toml - entered by its contract (all-or-nothing, one commit) - so a failing import, in merge or replace
+    mode, leaves the store as it was.  typer / rich are modelled as effect-free (prompts answer anything)."""
+    M = E.models
+    CLI = "nauyaca.__main__:tofu_import"
+    committed, commits = st["committed"], st["commits"]
+    M["rich.console.Console"] = lambda ctx, a, k: ctx.alloc("model:console", {})
+    M[("model:console", "print")] = lambda ctx, o, a, k: NONE
+    M["nauyaca.__main__.console.print"] = lambda ctx, a, k: NONE
+    M["nauyaca.__main__.error_console.print"] = lambda ctx, a, k: NONE
+    M["rich.table.Table"] = lambda ctx, a, k: ctx.alloc("model:table", {})
+    M[("model:table", "add_column")] = lambda ctx, o, a, k: NONE
+    M[("model:table", "add_row")] = lambda ctx, o, a, k: NONE
+    M["typer.confirm"] = lambda ctx, a, k: VBool(ctx.fresh_bool("operator_confirms"))
+    M["typer.Exit"] = lambda ctx, a, k: VExc("typer.Exit", VStr(""), origin="typer.Exit")
+    M["typer.Abort"] = lambda ctx, a, k: VExc("typer.Abort", VStr(""), origin="typer.Abort")
+    E.use_assumption("CLI: typer.confirm answers anything, console output has no effect on the store (typer / rich not interpreted)")
+
+    def tofu_init(ctx, args, kw):
+        ctx.setf(args[0], "db_path", VOpaque("path", z3.Int("db_path_id")))
+        E.sqlite_db_of(ctx)
+        if ctx.choose(2, "TOFUDatabase(): opened/raises") == 1:
+            raise PyRaise(VExc("sqlite3.OperationalError", VStr(ctx.fresh_str("openerr")), origin="TOFUDatabase()"))
+        return NONE
+    M[("cli", TOFU, "__init__")] = tofu_init
+
+    def imp_caller_post(ctx, old, args, outcome):
+        c0, c1 = committed(ctx, old.snap), committed(ctx)
+        once = z3.And(commits(ctx) - commits(ctx, old.snap) <= 1, commits(ctx) >= commits(ctx, old.snap))
+        ctx.ghost["import_calls"] = ctx.ghost.get("import_calls", 0) + 1
+        ctx.ghost["import_merge"] = args[2] if len(args) > 2 else None
+        if outcome[0] == "raise":
+            return z3.And(once, c1.equal(c0))
+        return once
+
+    def modifies_store(ctx, args):
+        db = E.sqlite_db_of(ctx)
+        mkc = lambda sort: T.make(lambda c, h: z3.Const(c.fresh_name(h), sort))
+        return [(db, "c_has", mkc(SQ.HAS_T)), (db, "c_fp", mkc(SQ.STR_T)), (db, "c_fs", mkc(SQ.STR_T)), (db, "c_ls", mkc(SQ.STR_T)), (db, "commits", T.int())]
+    c_imp_caller = Contract(f"{TOFU}.import_toml", result=T.tuple(T.int(lo=0), T.int(lo=0), T.int(lo=0)), raises=["FileNotFoundError", "ValueError", "Exception*"],
+                            modifies=modifies_store, ensures=[("all-or-nothing, at most one commit (proved for the real body in this run)", imp_caller_post)])
+
+    def cli_args(ctx):
+        E.sqlite_db_of(ctx)
+        E.caller_contracts[f"{TOFU}.import_toml"] = c_imp_caller
+        M[(TOFU, "__init__")] = tofu_init
+        E.caller_contracts[f"{TOFU}.__init__"] = Contract(f"{TOFU}.__init__", result=T.none, raises=["sqlite3.Error", "OSError"],
+                                                          ensures=[("store opened", lambda c, old, a, o: (c.setf(a[0], "db_path", VOpaque("path", z3.Int("db_path_id"))), E.sqlite_db_of(c), None)[2])])
+        ctx.ghost["import_calls"] = 0
+        return [VOpaque("path", z3.Int("file_path_id")), VBool(z3.Bool("cli.replace")), VBool(z3.Bool("cli.force"))], {}
+
+    def cli_post(ctx, old, args, outcome):
+        c0, c1 = committed(ctx, old.snap), committed(ctx)
+        once = commits(ctx) - commits(ctx, old.snap) <= 1
+        if outcome[0] == "raise":
+            return z3.And(once, c1.equal(c0))
+        m = ctx.ghost.get("import_merge")
+        mode = z3.BoolVal(False) if not isinstance(m, VBool) else (m.z == z3.Not(z3.Bool("cli.replace")))
+        return z3.And(once, z3.BoolVal(ctx.ghost.get("import_calls", 0) == 1), mode)
+    c_cli = Contract(CLI, make_args=cli_args, ensures=[
+        ("[C12] `tofu import` touches the store only through one import_toml call (merge = not --replace): a command that fails or is aborted leaves the store exactly as it was, a successful one commits once", cli_post)])
+    spec.event_contracts[CLI] = c_cli
+    spec.targets.append((CLI, None))
+
+
 def add_targets(E, spec, pid):
     r = install(E)
     if not hasattr(spec, "event_contracts"):
@@ -250,6 +316,8 @@ def add_targets(E, spec, pid):
     c = r["import_contract"]
     spec.event_contracts[c.qual] = c
     spec.targets.append((c.qual, None))
+    if pid == "C12":
+        add_cli_target(E, spec, pid, r["store"])
     # composition lemma: the export key "h:p" is injective.  Three steps: (a) str(p) for p >= 0 is a non-empty digit string
     # (definition of str.from_int in SMT-LIB; neither solver derives it, taken as the theory's axiom), (b) below, (c) below.
     h1, h2, d1, d2 = z3.String("k_h1"), z3.String("k_h2"), z3.String("k_d1"), z3.String("k_d2")
